@@ -1692,7 +1692,8 @@ static void *peg_unmarshal(JanetMarshalContext *ctx) {
                 i += 4;
                 break;
             case RULE_ARGUMENT:
-                /* [searchtag, tag] */
+                /* [argument-index, tag] */
+                if (rule[1] > INT32_MAX) goto bad;
                 i += 3;
                 break;
             case RULE_GETTAG:
